@@ -401,6 +401,7 @@ type reflOpts struct {
 	nilrecv  bool // C09: nil receiver variants of the read operations
 	frame    bool // C07/C11: read-only operations do not store
 	unknown  bool // C14: GetUnknown/SetUnknown
+	get      bool // C09: the Get contract (unpopulated composite fields yield the invalid read-only views)
 }
 
 var readOnlyMethods = map[string]bool{"Has": true, "Get": true, "Range": true, "WhichOneof": true, "GetUnknown": true, "IsValid": true, "NewField": true, "Descriptor": true, "Type": true, "New": true, "Interface": true}
@@ -416,7 +417,7 @@ func reflUnits(prog *Program, ms *MsgSchema, o reflOpts) []*Unit {
 		if o.frame && !o.contract && !o.nilrecv && !readOnlyMethods[m] {
 			continue
 		}
-		if o.contract || o.frame || o.unknown {
+		if o.contract || o.frame || o.unknown || (o.get && m == "Get") {
 			out = append(out, reflUnit(prog, ms, m, names[ms.Name], o, false))
 		}
 		if o.nilrecv && (readOnlyMethods[m] || m == "Set" || m == "Clear" || m == "Mutable" || m == "SetUnknown") {
@@ -543,7 +544,7 @@ func reflUnit(prog *Program, ms *MsgSchema, method, full string, o reflOpts, nil
 		}
 		u.Grounds = append(u.Grounds, Ground{Name: u.Name + "/frame[stores to message fields]", OK: n == 0, Text: fmt.Sprintf("%s contains no statement that stores to a field of the message (%d found)", method, n)})
 	}
-	if !o.contract && !(o.unknown && (method == "GetUnknown" || method == "SetUnknown")) {
+	if !o.contract && !(o.get && method == "Get") && !(o.unknown && (method == "GetUnknown" || method == "SetUnknown")) {
 		// frame-only run: drop the safety sweep (it belongs to C08)
 		var keep []*Obl
 		for _, ob := range c.obls {
@@ -888,7 +889,10 @@ func (e *reflEngine) getValue(f reflField, r *RetState, before map[string]Val, m
 			if m, ok := rv.V.(IfaceV); ok {
 				_ = m
 			}
-			return and(selected, "(not (= "+pr.Ref+" 0))")
+			if src, ok := e.views[valRepr(rv.V)]; ok {
+				return and(selected, and("(not (= "+pr.Ref+" 0))", "(= "+src.Ref+" "+pr.Ref+")"))
+			}
+			return "false"
 		}
 	} else if mutable {
 		cur = c.loadField(r.St, e.x, f.goName)
@@ -931,11 +935,21 @@ func (e *reflEngine) getValue(f reflField, r *RetState, before map[string]Val, m
 		}
 		return fmt.Sprintf("(ite (= %s 0) (= %s 0) %s)", ln, p.Ref, isField)
 	case "Message":
+		// the returned view is the ProtoReflect() of the field's message: the typed-nil (invalid, read-only) view when the
+		// field is unpopulated or another oneof member is selected
 		pr := cur.(PtrV)
-		if mutable {
-			return "(not (= " + pr.Ref + " 0))"
+		src, ok := e.views[valRepr(rv.V)]
+		if !ok {
+			return "false"
 		}
-		return "true"
+		same := "(= " + src.Ref + " " + pr.Ref + ")"
+		if mutable {
+			return and("(not (= "+pr.Ref+" 0))", same)
+		}
+		if f.f.Oneof != nil {
+			return "(ite " + selected + " " + same + " (= " + src.Ref + " 0))"
+		}
+		return same
 	}
 	// scalar kinds: value equals the field, or the default when a oneof member is not selected
 	got, ok1 := rv.V.(Scalar)
